@@ -1051,6 +1051,13 @@ class Interp:
         if not (deep_sym(args) or deep_sym(kwargs)):
             # all-concrete call of an uncontracted typhon helper: run the real thing
             return self.native(f, *args, **kwargs)
+        # a typhon helper without a contract, called with symbolic arguments: its body is interpreted in place (sound; it
+        # only costs paths) and the evidence lists it as inlined without having been named in a contract file.  On the
+        # baseline tree this never happens (every helper reached is named); it does when an edit introduces a new helper.
+        if inspect.isfunction(unwrap(f)):
+            self.contracts_used.add("auto-inline:%s:%s" % (f.__module__, f.__qualname__))
+            self.inlined_functions[id(unwrap(f).__code__)] = f
+            return self.run_function(f, args, kwargs)
         raise OutsideSubset("typhon function %s.%s called with symbolic arguments has no contract"
                             % (f.__module__, f.__qualname__))
 
